@@ -76,6 +76,7 @@ type c14Replay struct {
 	Cfg   c14Cfg   `json:"cfg"`
 	Fault c14Fault `json:"fault"`
 	L     int      `json:"prefix_len,omitempty"`
+	Open  string   `json:"open_options,omitempty"` // truncate: the file options of the failing open ("" = default)
 	Call  int      `json:"readat_call,omitempty"`
 	Mode  string   `json:"readat_mode,omitempty"`
 }
@@ -151,6 +152,9 @@ type c14Env struct {
 	workdir string
 	timeout time.Duration
 	layouts int
+	// file options added to those of the file by readAll (the open variant
+	// under which the prefix sweep runs)
+	extraOpen []parquet.FileOption
 	// vm_compute sample of the copy path and of the reader's demand (cases.v)
 	vmCopyDefs  []string
 	vmCopyCases []string
@@ -1009,7 +1013,7 @@ func (env *c14Env) readAll(sp *c14Spec, r io.ReaderAt, size int64, afterOpen ...
 			panicked = fmt.Sprint(x)
 		}
 	}()
-	f, err := parquet.OpenFile(r, size, env.openOpts(sp)...)
+	f, err := parquet.OpenFile(r, size, append(env.openOpts(sp), env.extraOpen...)...)
 	if err != nil {
 		return nil, "open", err, ""
 	}
@@ -1068,7 +1072,76 @@ func c14OpenClass(err error) string {
 	return "footer-decode"
 }
 
-// truncation: every strict prefix must be rejected by OpenFile or by the read.
+// c14OpenVariant is a set of file options under which the prefix sweep is
+// repeated: every option of FileConfig that changes how OpenFile (or the read
+// after it) gets at the bytes of the file.  SkipMagic, Optimistic and RBS are
+// the parameters of the model of the open stages (Sink/Reader.v
+// open_core_cfg); the other options act after the footer was decoded.
+type c14OpenVariant struct {
+	Name       string
+	SkipMagic  bool
+	Optimistic bool
+	RBS        int // 0: the default ReadBufferSize
+	SkipIndex  bool
+	SkipBloom  bool
+	Prefetch   bool
+	Async      bool
+}
+
+func (v c14OpenVariant) options() []parquet.FileOption {
+	var o []parquet.FileOption
+	if v.SkipMagic {
+		o = append(o, parquet.SkipMagicBytes(true))
+	}
+	if v.Optimistic {
+		o = append(o, parquet.OptimisticRead(true))
+	}
+	if v.RBS > 0 {
+		o = append(o, parquet.ReadBufferSize(v.RBS))
+	}
+	if v.SkipIndex {
+		o = append(o, parquet.SkipPageIndex(true))
+	}
+	if v.SkipBloom {
+		o = append(o, parquet.SkipBloomFilters(true))
+	}
+	if v.Prefetch {
+		o = append(o, parquet.PrefetchBloomFilters(true))
+	}
+	if v.Async {
+		o = append(o, parquet.FileReadMode(parquet.ReadModeAsync))
+	}
+	return o
+}
+
+// c14OpenVariants: each option alone, OptimisticRead with read buffers around
+// the 8 bytes of the trailer, shorter and longer than the footer and longer
+// than the file, and the combinations that read the least / the most at open.
+func c14OpenVariants() []c14OpenVariant {
+	vs := []c14OpenVariant{
+		{Name: "optimistic", Optimistic: true},
+		{Name: "skip-page-index", SkipIndex: true},
+		{Name: "skip-bloom-filters", SkipBloom: true},
+		{Name: "prefetch-bloom-filters", Prefetch: true},
+		{Name: "async", Async: true},
+		{Name: "skip-magic", SkipMagic: true},
+		{Name: "read-buffer=16", RBS: 16},
+		{Name: "read-buffer=64", RBS: 64},
+	}
+	for _, n := range []int{1, 7, 8, 9, 64, 1 << 16} {
+		vs = append(vs, c14OpenVariant{Name: fmt.Sprintf("optimistic,read-buffer=%d", n), Optimistic: true, RBS: n})
+	}
+	vs = append(vs,
+		c14OpenVariant{Name: "optimistic,skip-page-index,skip-bloom-filters", Optimistic: true, SkipIndex: true, SkipBloom: true},
+		c14OpenVariant{Name: "optimistic,prefetch-bloom-filters,async", Optimistic: true, Prefetch: true, Async: true},
+		c14OpenVariant{Name: "optimistic,skip-magic,read-buffer=300", Optimistic: true, SkipMagic: true, RBS: 300},
+		c14OpenVariant{Name: "skip-magic,skip-page-index,skip-bloom-filters,async", SkipMagic: true, SkipIndex: true, SkipBloom: true, Async: true},
+	)
+	return vs
+}
+
+// truncation: every strict prefix must be rejected by OpenFile or by the read,
+// under the default file options and under every c14OpenVariant.
 func (env *c14Env) truncation(sp *c14Spec, lay *c14Layout) {
 	c := env.c
 	ref := lay.ref
@@ -1132,43 +1205,102 @@ func (env *c14Env) truncation(sp *c14Spec, lay *c14Layout) {
 		}
 	}
 	pastMagic, skipped := 0, 0
+	variants := append([]c14OpenVariant{{}}, c14OpenVariants()...)
+	// The variants run on every swept prefix in the thorough tier; in the quick
+	// tier on the lengths at which their open stages can differ: the first 80
+	// (around the 8 bytes of the trailer and the small read buffers), the last
+	// 300, +-2 around every module boundary and around the read buffer sizes,
+	// every prefix ending in a magic, and a stride.
+	lsVar := map[int]bool{}
 	for _, l := range ls {
-		if !magicRejects && l >= 8 && !isMagic(ref[l-4:l]) && le32(ref[l-8:l-4]) > 1<<24 {
-			skipped++
-			continue
+		near := l <= 80 || l >= n-300 || (l >= 8 && isMagic(ref[l-4:l])) || !c.Quick()
+		for _, b := range lay.bounds {
+			near = near || (l >= b-2 && l <= b+2)
 		}
-		p := ref[:l:l]
-		rp := c14Replay{What: "truncate", Spec: *sp, L: l}
-		rows, stage, err, panicked := env.readAll(sp, bytes.NewReader(p), int64(l))
-		switch {
-		case panicked != "":
-			c.Violation("truncated-panic", fmt.Sprintf("file %s cut to %d of %d bytes: panic %s", sp.Name, l, n, core.Trunc(panicked, 200)), rp)
-		case err == nil:
-			c.Violation("truncated-file-accepted", fmt.Sprintf("file %s cut to %d of %d bytes opens and reads %d rows without any error", sp.Name, l, n, len(rows)), rp)
+		for _, v := range variants {
+			near = near || (v.RBS > 0 && l >= v.RBS-2 && l <= v.RBS+10)
 		}
-		// model of the open stages
-		class := "ok"
-		if stage == "open" {
-			class = c14OpenClass(err)
+		near = near || (l >= parquet.DefaultFileConfig().ReadBufferSize-2 && l <= parquet.DefaultFileConfig().ReadBufferSize+10)
+		lsVar[l] = near
+	}
+	for l := c.Rng.Intn(29); l < n; l += 29 {
+		lsVar[l] = true
+	}
+	defer func() { env.extraOpen = nil }()
+	tVar := time.Now()
+	defer func() {
+		if os.Getenv("C14_TIMES") != "" {
+			fmt.Fprintf(os.Stderr, "c14: truncation %s: %v\n", sp.Name, time.Since(tVar))
 		}
-		if class != "short-header" && class != "bad-header-magic" && class != "short-tail" && class != "bad-tail-magic" {
-			pastMagic++
-		}
-		if c.HasOracle() {
-			hdr, tail := p, p
-			if l >= 4 {
-				hdr = p[:4]
-			}
-			if l >= 8 {
-				tail = p[l-8:]
-			}
-			m := c.Ask(fmt.Sprintf("c14.open %s %d %s %s 0", map[bool]string{true: "1", false: "0"}[sp.Enc != 0], l, core.Hexs(hdr), core.Hexs(tail)))
-			agree := m == class || (m == "footer-decode" && class == "ok")
-			if !agree {
-				c.Mismatch("corr:C14.open", fmt.Sprintf("file %s prefix %d", sp.Name, l), class+": "+fmt.Sprint(err), m, rp)
+	}()
+	for vi, v := range variants {
+		env.extraOpen = v.options()
+		under, tag := "", ""
+		if vi > 0 {
+			under, tag = " opened with "+v.Name, "/"+v.Name
+			// the complete file opens and reads back under these options
+			if rows, _, err, p := env.readAll(sp, bytes.NewReader(ref), int64(n)); err != nil || p != "" || !c14RowsEqual(rows, want) {
+				c.Violation("reference-unreadable", fmt.Sprintf("file %s%s: the complete file does not read back: err=%v panic=%q rows=%d/%d", sp.Name, under, err, p, len(rows), len(want)), c14Replay{What: "truncate", Spec: *sp, L: n, Open: v.Name})
+				continue
 			}
 		}
-		c.Case("truncate/"+class, fmt.Sprintf("%s|%d", sp.Name, l), true)
+		for _, l := range ls {
+			if vi > 0 && !lsVar[l] {
+				continue
+			}
+			if !magicRejects && l >= 8 && !isMagic(ref[l-4:l]) && le32(ref[l-8:l-4]) > 1<<24 {
+				if vi == 0 {
+					skipped++
+				}
+				continue
+			}
+			p := ref[:l:l]
+			rp := c14Replay{What: "truncate", Spec: *sp, L: l, Open: v.Name}
+			rows, stage, err, panicked := env.readAll(sp, bytes.NewReader(p), int64(l))
+			switch {
+			case panicked != "":
+				c.Violation("truncated-panic", fmt.Sprintf("file %s cut to %d of %d bytes%s: panic %s", sp.Name, l, n, under, core.Trunc(panicked, 200)), rp)
+			case err == nil:
+				c.Violation("truncated-file-accepted", fmt.Sprintf("file %s cut to %d of %d bytes%s opens and reads %d rows without any error", sp.Name, l, n, under, len(rows)), rp)
+			}
+			// model of the open stages
+			class := "ok"
+			if stage == "open" {
+				class = c14OpenClass(err)
+			}
+			if vi == 0 && class != "short-header" && class != "bad-header-magic" && class != "short-tail" && class != "bad-tail-magic" {
+				pastMagic++
+			}
+			if c.HasOracle() && panicked == "" {
+				hdr, tail := p, p
+				if l >= 4 {
+					hdr = p[:4]
+				}
+				if l >= 8 {
+					tail = p[l-8:]
+				}
+				b01 := map[bool]string{true: "1", false: "0"}
+				var m string
+				if vi == 0 {
+					m = c.Ask(fmt.Sprintf("c14.open %s %d %s %s 0", b01[sp.Enc != 0], l, core.Hexs(hdr), core.Hexs(tail)))
+				} else {
+					rbs := v.RBS
+					if rbs == 0 {
+						rbs = parquet.DefaultFileConfig().ReadBufferSize
+					}
+					m = c.Ask(fmt.Sprintf("c14.openx %s %s %d %s %d %s %s 0", b01[v.SkipMagic], b01[v.Optimistic], rbs, b01[sp.Enc != 0], l, core.Hexs(hdr), core.Hexs(tail)))
+				}
+				agree := m == class || (m == "footer-decode" && class == "ok")
+				if !agree {
+					c.Mismatch("corr:C14.open", fmt.Sprintf("file %s prefix %d%s", sp.Name, l, under), class+": "+fmt.Sprint(err), m, rp)
+				}
+			}
+			if vi == 0 {
+				c.Case("truncate/"+class, fmt.Sprintf("%s|%d", sp.Name, l), true)
+			} else {
+				c.Case("truncate-opened-with"+tag, fmt.Sprintf("%s|%d|%s", sp.Name, l, v.Name), true)
+			}
+		}
 	}
 	c.Note("file %s (%d bytes): %d prefixes, %d of them passed the magic checks (planted trailers) and were rejected later", sp.Name, n, len(ls), pastMagic)
 	if skipped > 0 {
@@ -1551,7 +1683,7 @@ type c14PageBuf struct {
 	pos  int
 }
 
-func (p *c14Pool) GetBuffer() io.ReadWriteSeeker   { return &c14PageBuf{pool: p} }
+func (p *c14Pool) GetBuffer() io.ReadWriteSeeker  { return &c14PageBuf{pool: p} }
 func (p *c14Pool) PutBuffer(b io.ReadWriteSeeker) {}
 
 func (b *c14PageBuf) Write(p []byte) (int, error) {
